@@ -69,12 +69,20 @@ fn main() {
             let shard: u64 = arg_value(&args, "--shard").and_then(|s| s.parse().ok()).unwrap_or_else(|| usage());
             let of: u64 = arg_value(&args, "--of").and_then(|s| s.parse().ok()).unwrap_or_else(|| usage());
             let out = arg_value(&args, "--out").unwrap_or_else(|| usage());
+            if let Some(j) = arg_value(&args, "--journal") {
+                engine::enable_journal(j.into());
+            }
             worker(&id, tier, seed, shard, of, &out);
         }
         "replay" => {
             let id = args.get(2).cloned().unwrap_or_else(|| usage());
             let file = args.get(3).cloned().unwrap_or_else(|| usage());
             std::process::exit(replay(&id, &file));
+        }
+        "replay-child" => {
+            let id = args.get(2).cloned().unwrap_or_else(|| usage());
+            let file = args.get(3).cloned().unwrap_or_else(|| usage());
+            std::process::exit(replay_child(&id, &file));
         }
         "c19case" => props::c19::child_main(),
         _ => usage(),
@@ -152,6 +160,7 @@ fn check(id: &str, tier: Tier, seed: u64) -> i32 {
     let limit = Duration::from_secs(tier.pick(1500, 6 * 3600));
     let mut merged = Report::default();
     let mut infra = vec![];
+    let mut crashed: Vec<(u64, i32)> = vec![];
     for (shard, mut child, out) in children {
         let status = loop {
             match child.try_wait() {
@@ -175,9 +184,56 @@ fn check(id: &str, tier: Tier, seed: u64) -> i32 {
                 Some(rep) => merged.merge(rep),
                 None => infra.push(format!("shard {shard}: no readable report")),
             },
-            Some(st) => infra.push(format!("shard {shard}: worker exited with {st}")),
+            Some(st) => {
+                use std::os::unix::process::ExitStatusExt;
+                match st.signal() {
+                    Some(sig) => crashed.push((shard, sig)),
+                    None => infra.push(format!("shard {shard}: worker exited with {st}")),
+                }
+            }
             None => infra.push(format!("shard {shard}: killed by the watchdog after {:?}", limit)),
         }
+        let _ = std::fs::remove_file(&out);
+    }
+
+    // A worker killed by a signal (abort from a memory-safety check, segfault,
+    // stack overflow): run that shard again with the crash journal on, to
+    // recover the case that kills it.
+    for (shard, sig) in crashed {
+        let journal = tmp.join(format!("{id}-{pid}-{shard}.journal"));
+        let out = tmp.join(format!("{id}-{pid}-{shard}.rerun.json"));
+        let _ = std::fs::remove_file(&journal);
+        let status = Command::new(&exe)
+            .args(["worker", id, "--tier", tier.name(), "--seed", &seed.to_string(), "--shard", &shard.to_string(), "--of", &nshards.to_string(), "--out"])
+            .arg(&out)
+            .arg("--journal")
+            .arg(&journal)
+            .stdin(Stdio::null())
+            .stderr(Stdio::null())
+            .status();
+        let entry = std::fs::read_to_string(&journal).ok().and_then(|t| serde_json::from_str::<engine::JournalEntry>(&t).ok());
+        use std::os::unix::process::ExitStatusExt;
+        match (status, entry) {
+            (Ok(st), Some(entry)) if st.signal().is_some() => {
+                let ctx = Ctx {
+                    id: id.to_string(),
+                    tier,
+                    seed,
+                    shard,
+                    nshards,
+                    known: engine::load_known(),
+                };
+                engine::record_crash(&ctx, &mut merged, entry, &format!("signal-{}", st.signal().unwrap()));
+            }
+            (Ok(st), _) if st.success() => {
+                infra.push(format!("shard {shard}: worker was killed by signal {sig} but ran to completion when re-run with the crash journal on"));
+                if let Some(rep) = std::fs::read_to_string(&out).ok().and_then(|t| serde_json::from_str::<Report>(&t).ok()) {
+                    merged.merge(rep);
+                }
+            }
+            (st, _) => infra.push(format!("shard {shard}: worker killed by signal {sig}; re-run with the journal gave {st:?} and no usable journal")),
+        }
+        let _ = std::fs::remove_file(&journal);
         let _ = std::fs::remove_file(&out);
     }
     infra.extend(merged.infra_errors.clone());
@@ -258,6 +314,30 @@ fn check(id: &str, tier: Tier, seed: u64) -> i32 {
 }
 
 fn replay(id: &str, file: &str) -> i32 {
+    // The case runs in a child process, so that one which kills the process
+    // (abort, segfault) is still reported as a violation.
+    let exe = std::env::current_exe().expect("own path");
+    let status = Command::new(exe).args(["replay-child", id, file]).stdin(Stdio::null()).status();
+    use std::os::unix::process::ExitStatusExt;
+    match status {
+        Ok(st) => match (st.code(), st.signal()) {
+            (Some(code), _) => code,
+            (None, Some(sig)) => {
+                println!("VIOLATION property={id} replay={file}");
+                println!("  signature: crash:signal-{sig}");
+                println!("  the process running this case was killed by signal {sig}");
+                1
+            }
+            _ => 2,
+        },
+        Err(e) => {
+            eprintln!("cannot spawn replay child: {e}");
+            2
+        }
+    }
+}
+
+fn replay_child(id: &str, file: &str) -> i32 {
     let Some(prop) = props::find(id) else {
         eprintln!("unknown property {id}");
         return 2;
